@@ -849,6 +849,16 @@ impl Inner {
                     return Ok(());
                 }
 
+                // The application (or the library) has already reset the
+                // initiating stream, which the peer may not know yet. The
+                // promised stream is reserved on the peer's side all the same
+                // (RFC 9113, section 5.1), so it is refused; neither the peer
+                // nor the connection is at fault.
+                if stream.state.is_local_error() {
+                    self.actions.recv.ensure_can_reserve()?;
+                    return Err(Error::library_reset(promised_id, Reason::CANCEL));
+                }
+
                 // The stream must be receive open
                 if !stream.state.ensure_recv_open()? {
                     proto_err!(conn: "recv_push_promise: initiating stream is not opened");
